@@ -48,6 +48,7 @@ class World(object):
         self.rng = rng
         self.version = version
         self.shapes = []
+        self.ancestors = []
         self.by_cls = {}
         self.enums = []
         for _ in range(rng.randint(2, 4)):
@@ -77,6 +78,9 @@ class World(object):
         self.shapes.append(shape)
         for link in shape.chain():
             self.by_cls[link.cls] = link
+            if link is not shape:
+                # ancestors are classes of their own: they get instances too (after and before their descendants)
+                self.ancestors.append(link)
 
     def fields_of(self, obj):
         s = self.by_cls.get(type(obj))
@@ -112,7 +116,7 @@ class World(object):
             return rng.choice(list(rng.choice(self.enums)))
         if r < 0.8:
             return decimal.Decimal(rng.choice(classgen.DECIMALS))
-        return self.instance(rng.choice(self.shapes), depth - 1)
+        return self.instance(rng.choice(self.shapes + self.ancestors), depth - 1)
 
     def hashable(self, depth):
         rng = self.rng
@@ -291,8 +295,10 @@ def run(ctx):
         ctx.count("classes-generated", sum(len(s.chain()) for s in world.shapes) + len(world.enums))
         if w == 0:
             ctx.sample({"classes": [s.describe() for s in world.shapes], "version": version})
-        for shape in world.shapes:
-            for rep in range(ctx.pick(3, 10)):
+        order = world.shapes + world.ancestors
+        rng.shuffle(order)
+        for shape in order:
+            for rep in range(ctx.pick(3, 10) if shape in world.shapes else 2):
                 obj = world.instance(shape, rng.randint(0, 3))
                 for position in POSITIONS[:5]:
                     x = wrap(rng, obj, position)
